@@ -57,7 +57,7 @@ def graph_mutating_calls(facts, key):
     return f['inputs'][0] if f['inputs'] else ''
 
 
-def run(ck):
+def _run_own(ck):
     facts = ck.facts
     ck.decided('D1 every matcher establishes, on every accepting path, the conjuncts of its rule\'s precondition that are necessary for soundness or for not panicking (must-fact extraction over the resolved HIR against refs/rules_req.py)',
                'D2 existence typestate: in all 17 matchers and 4 helper predicates every panicking accessor on a vertex parameter is dominated by a fact that implies the vertex exists',
@@ -110,3 +110,8 @@ def run(ck):
     ck.control('R-MATCH flags a matcher with a dropped conjunct', bool(m))
     ck.control('R-EXIST flags an accessor before the existence test', bool(ev))
     ck.control('R-WRAP flags a wrapper that applies the rule before checking', not wrapper_shape(fx, 'basic_rules::remove_id', 'basic_rules::check_remove_id', 'basic_rules::remove_id_unchecked')[0])
+
+
+def run(ck, **kw):
+    _run_own(ck)
+    ck.include('C01', 'a rule is sound when its matcher accepts only if its body has the effect of the rule schema, including every arm of add_edge_smart it relies on', parts=['D3', 'D4'])
